@@ -23,6 +23,26 @@ type lworld struct {
 	nextID int
 	// unjudged: a scripted step could not be carried out as scripted (see FailFirst)
 	unjudged bool
+	deferred []deferredReply
+}
+
+type deferredReply struct {
+	resp tq.Response
+	body tq.EncoderDecoder
+}
+
+// fireDeferred sends the oldest reply a handler left for later.
+func (w *lworld) fireDeferred() bool {
+	w.mu.Lock()
+	if len(w.deferred) == 0 {
+		w.mu.Unlock()
+		return false
+	}
+	d := w.deferred[0]
+	w.deferred = w.deferred[1:]
+	w.mu.Unlock()
+	d.resp.Reply(d.body)
+	return true
 }
 
 type invocation struct {
@@ -37,6 +57,9 @@ type lAction struct {
 	Body tq.EncoderDecoder // reply body (when Reply)
 	// Write, when set, makes the handler build its own packet and send it with Response.Write.
 	Write func(req tq.Request) *tq.Packet
+	// Defer: the handler returns without answering and keeps its Response; the harness sends the reply later (fireDeferred),
+	// after other packets have been read on the connection - a handler that answers from another goroutine
+	Defer bool
 	// FailFirst: the handler first calls Reply this many times with a body that cannot be encoded (nothing is written,
 	// Reply returns an error) and then falls back to Body, as the reference authorizer does for unencodable values.
 	FailFirst int
@@ -70,6 +93,12 @@ func (h *scripted) Handle(resp tq.Response, req tq.Request) {
 		resp.Write(act.Write(req))
 		return
 	}
+	if act.Defer {
+		w.mu.Lock()
+		w.deferred = append(w.deferred, deferredReply{resp: resp, body: act.Body})
+		w.mu.Unlock()
+		return
+	}
 	if act.Reply {
 		for i := 0; i < act.FailFirst; i++ {
 			if _, err := resp.Reply(unencodable()); err == nil {
@@ -96,6 +125,7 @@ func (w *lworld) reset() {
 	w.inv = nil
 	w.nextID = 1
 	w.unjudged = false
+	w.deferred = nil
 	w.mu.Unlock()
 }
 
